@@ -63,3 +63,43 @@ package plumbing
 //gvc:  trusted
 //gvc:  ensures bytes: result == forall(k, 0, 32, s.hash[k] == in.hash[k])
 //gvc:end
+
+// writeHeader feeds exactly git's object header (object-file.c
+// format_object_header): <type> SP <decimal size> NUL, in this order, as four
+// chunks.
+//gvc:func writeHeader
+//gvc:  props C01
+//gvc:  theory int
+//gvc:  modifies h.#sink
+//gvc:  requires hnn: h != nil
+//gvc:  let n0 = h.#fedn
+//gvc:  ensures four: h.#fedn == n0 + 4
+//gvc:  ensures space: h.#fedlen[n0 + 1] == 1 && h.#fedarr[n0 + 1][h.#fedoff[n0 + 1]] == ' '
+//gvc:  ensures size: spec_decimal(h.#fedarr[n0 + 2], h.#fedoff[n0 + 2], h.#fedlen[n0 + 2]) == sz
+//gvc:  ensures nul: h.#fedlen[n0 + 3] == 1 && h.#fedarr[n0 + 3][h.#fedoff[n0 + 3]] == 0
+//gvc:  ensures prefix: forall(k, 0, n0, h.#fedarr[k] == old(h.#fedarr)[k] && h.#fedoff[k] == old(h.#fedoff)[k] && h.#fedlen[k] == old(h.#fedlen)[k])
+//gvc:end
+
+// Compute hashes header(type, len(d)) followed by d, from a freshly reset
+// hash: the hash is fed exactly 5 chunks, the size in the header is len(d),
+// and the last chunk is d itself.
+//gvc:func (*ObjectHasher).Compute
+//gvc:  props C01
+//gvc:  theory int
+//gvc:  opt coarse
+//gvc:  opt frame args
+//gvc:  results id err
+//gvc:  requires hnn: h.hasher != nil
+//gvc:  ensures chunks: err == nil ==> h.hasher.#fedn == 5
+//gvc:  ensures size: err == nil ==> spec_decimal(h.hasher.#fedarr[2], h.hasher.#fedoff[2], h.hasher.#fedlen[2]) == len(d)
+//gvc:  ensures content: err == nil ==> h.hasher.#fedarr[4] == arr(d) && h.hasher.#fedoff[4] == off(d) && h.hasher.#fedlen[4] == len(d)
+//gvc:  ensures layout: err == nil ==> h.hasher.#fedlen[1] == 1 && h.hasher.#fedarr[1][h.hasher.#fedoff[1]] == ' ' && h.hasher.#fedlen[3] == 1 && h.hasher.#fedarr[3][h.hasher.#fedoff[3]] == 0
+//gvc:  ensures format: id.format == h.format
+//gvc:end
+
+// Bytes returns the canonical type name as fresh bytes (trusted: String() is
+// a constant table lookup).
+//gvc:func ObjectType.Bytes
+//gvc:  trusted
+//gvc:  ensures len(result) == spec_typename_len(t)
+//gvc:end
